@@ -43,7 +43,9 @@ func p(t int64, v float64) core.Pt { return core.Pt{T: t, V: core.F(v)} }
 // C02: instant-vector selection
 
 func c02Contexts() []string {
-	return []string{`a`, `a offset 30s`, `a offset -30s`, `a @ 600.000`, `a @ start()`, `a @ end()`, `-a`, `a + 0`, `a @ 600.000 offset 45s`}
+	return []string{`a`, `a offset 30s`, `a offset -30s`, `a @ 600.000`, `a @ start()`, `a @ end()`, `-a`, `a + 0`, `a @ 600.000 offset 45s`,
+		// two selectors with the same matchers in one query share pooled selects
+		`a @ end() + a`, `a + a @ end()`, `a @ start() + a`, `a offset 30s + a`, `a @ 600.000 + a`}
 }
 
 func init() {
@@ -132,7 +134,7 @@ func init() {
 			for n := 0; n <= maxN; n++ {
 				data := gen.NSeries(n, 14)
 				for _, pr := range procs {
-					for _, q := range []string{`a`, `a offset 30s`, `-a`, `a{m!="1"}`} {
+					for _, q := range []string{`a`, `a offset 30s`, `-a`, `a{m!="1"}`, `a @ end() + a`, `a + a offset 30s`} {
 						for _, ns := range []int{1, 11} {
 							emit(&core.Case{Q: q, Data: data, W: core.Range(10000, 30000, ns), O: core.Opts{Optimizers: "none", Procs: pr}, Note: fmt.Sprintf("shard-product n=%d", n)})
 						}
